@@ -23,6 +23,17 @@ logging.disable(logging.CRITICAL)      # the library logs every rejected call
 HERE = os.path.dirname(os.path.abspath(__file__))
 sys.path.insert(0, HERE)
 import layout  # noqa: E402
+if os.environ.get("HASHSTORE_SRC"):
+    # experiments on a changed copy of the sources (seeded changes, benign refactorings): the replay
+    # must run the same tree the obligations were generated from
+    sys.path.insert(0, os.path.dirname(os.path.abspath(os.environ["HASHSTORE_SRC"])))
+
+
+def _child_env():
+    env = dict(os.environ)
+    if env.get("HASHSTORE_SRC"):
+        env["PYTHONPATH"] = os.path.dirname(os.path.abspath(env["HASHSTORE_SRC"]))
+    return env
 
 
 def new_store(cfg, root=None):
@@ -348,6 +359,55 @@ class FaultPlan:
         os.makedirs = self.saved["makedirs"]
 
 
+def _fault_metadata(p, store, lay, root, sc, first=False):
+    """C13 X1/X3/X4 for the metadata operations: a failed store_metadata keeps the previous document
+    (or none), success is only reported with the whole effect, other pids' documents are untouched."""
+    pid, other, fmt, fmt2 = "pid-faulted", "pid-other", "http://ns.example/f1", "http://ns.example/f2"
+    v1, v2, vo = b"<doc version='1'/>", b"<doc version='2'/>", b"<doc other/>"
+    store.store_metadata(other, tmp_input(root, vo, "mo.xml"), fmt)
+    if not first:
+        store.store_metadata(pid, tmp_input(root, v1, "m1.xml"), fmt)
+    if "all documents" in sc:
+        store.store_metadata(pid, tmp_input(root, v1, "m1b.xml"), fmt2)
+
+    def doc(q, f):
+        try:
+            with store.retrieve_metadata(q, f) as fh:
+                return fh.read()
+        except Exception as e:     # noqa: BLE001 - the observation is "not retrievable"
+            return type(e).__name__
+    plan = FaultPlan(lay, p["prim"], p["target"], p.get("persistent", False))
+    new = tmp_input(root, v2, "m2.xml")
+    plan.install()
+    try:
+        if sc.startswith("store_metadata"):
+            out = outcome(store.store_metadata, pid, new, fmt)
+        elif "all documents" in sc:
+            out = outcome(store.delete_metadata, pid)
+        else:
+            out = outcome(store.delete_metadata, pid, fmt)
+    finally:
+        plan.uninstall()
+    if not plan.fired:
+        return None, f"the fault site {p['prim']}@{p['target']} was not reached natively"
+    if doc(other, fmt) != vo:
+        return True, "another pid's metadata document was disturbed"
+    now = doc(pid, fmt)
+    tagp = f"{sc} with {p['prim']}@{p['target']} ({'persistent' if p.get('persistent') else 'one-off'})"
+    if sc.startswith("store_metadata"):
+        if out[0] == "return":
+            return (now != v2), f"{tagp}: success reported, document is {now!r}"
+        prev = "MetadataNotFound" if first else v1
+        if now != prev and not (first and isinstance(now, str)):
+            return True, (f"{tagp}: failed with {out[1]} and the previous document version is "
+                          f"no longer retrievable (retrieve_metadata gives {now!r})")
+        return False, f"{tagp}: failed with {out[1]}, previous document intact"
+    if out[0] == "return":
+        gone = isinstance(now, str) and ("all documents" not in sc or isinstance(doc(pid, fmt2), str))
+        return (not gone), f"{tagp}: success reported, document still retrievable={not gone}"
+    return False, f"{tagp}: failed with {out[1]}"
+
+
 def o_fault_call(p, cfg):
     """C13: one injected failure during tag_object / store_object: the call raises unless its
     whole effect was achieved; after a failure the pid is unbound (or bound as before) and can be
@@ -369,6 +429,10 @@ def o_fault_call(p, cfg):
         store.store_object(pid, tmp_input(root, content, "p.bin"))
     if "bound to another cid" in sc:
         store.store_object(pid, tmp_input(root, b"other earlier content", "p.bin"))
+    if sc.endswith("_metadata: overwrite") or sc.startswith("delete_metadata"):
+        return _fault_metadata(p, store, lay, root, sc)
+    if sc.startswith("store_metadata"):
+        return _fault_metadata(p, store, lay, root, sc, first=True)
     before = lay.view()
     plan = FaultPlan(lay, p["prim"], p["target"], p.get("persistent", False))
     data = tmp_input(root, content, "d.bin")
@@ -446,7 +510,7 @@ def o_client_cli(p, cfg):
     data = tmp_input(root, b"client bytes", "c.bin")
     argv = [sys.executable, "-m", "hashstore.hashstoreclient", props["store_path"]] + [
         a.replace("{data}", data).replace("{size}", str(len(b"client bytes"))) for a in p["argv"]]
-    r = subprocess.run(argv, capture_output=True, text=True, timeout=60)
+    r = subprocess.run(argv, capture_output=True, text=True, timeout=60, env=_child_env())
     lay = layout.Layout(props)
     view = lay.view()
     if r.returncode != 0:
@@ -758,6 +822,8 @@ def o_model_sweep(p, cfg):
     pids = p.get("pids", ["doi:10.1/ab", "ab", "doi:10.1/a"])
     contents = [b"content-one", b"content-two"][:p.get("contents", 2)]
     fmts = [None, "fmt-x"]
+    if p.get("explicit_default"):
+        fmts.append("@default")      # the store's default namespace passed explicitly
     menu = []
     for pid in pids:
         for ci in range(len(contents)):
@@ -774,6 +840,11 @@ def o_model_sweep(p, cfg):
             for f in fmts:
                 menu.append(("smeta", pid, f))
             menu.append(("dmeta", pid, None))
+            if p.get("explicit_default"):
+                for f in fmts[1:]:
+                    menu.append(("dmeta", pid, f))
+    if p.get("no_objects"):
+        menu = [m for m in menu if m[0] in ("smeta", "dmeta")]
     n = p.get("length", 3)
     import time as _t
     t0 = _t.time()
@@ -824,11 +895,17 @@ def o_model_sweep(p, cfg):
                     want = model.dii_wrong_size(c)
                 elif op == "smeta":
                     doc = f"<doc {i}/>".encode()
-                    out = outcome(store.store_metadata, step[1], tmp_input(root, doc, f"m{i}.xml"), step[2])
-                    want = model.smeta(step[1], step[2], doc)
+                    fa = ns if step[2] == "@default" else step[2]
+                    out = outcome(store.store_metadata, step[1], tmp_input(root, doc, f"m{i}.xml"), fa)
+                    want = model.smeta(step[1], None if step[2] == "@default" else step[2], doc)
                 elif op == "dmeta":
-                    out = outcome(store.delete_metadata, step[1], step[2])
-                    want = model.dmeta(step[1], step[2])
+                    fa = ns if step[2] == "@default" else step[2]
+                    out = outcome(store.delete_metadata, step[1], fa)
+                    if step[2] == "@default":
+                        model.M.pop((step[1], None), None)     # just the default-format document
+                        want = "ok"
+                    else:
+                        want = model.dmeta(step[1], step[2])
                 got = _classify(out)
                 # states the API can create but the statements call inconsistent are skipped
                 if got != want and want in ("ok", "already-exists", "PidRefsDoesNotExist",
@@ -939,7 +1016,8 @@ def o_reject_matrix(p, cfg):
     store.store_metadata("pid-meta-only", tmp_input(root, b"<n/>", "n.xml"), "fmt-q")
     om = store.store_object(None, tmp_input(root, b"unreferenced", "un.bin"))
     sroot = props["store_path"]
-    bad_ids = [None, "", "  ", "a b", "tab\tid", "nl\nid"]
+    bad_ids = [None, "", "  ", "a b", "tab\tid", "nl\nid", "nbsp\u00a0id", "em\u2003", "\u3000wide",
+               "nel\u0085id", "\u00a0"]
     calls = []
     for b in bad_ids:
         if b is not None:        # store_object(None, data) is the documented store-without-pid form
@@ -1020,7 +1098,25 @@ def o_config_matrix(p, cfg):
     out = outcome(FileHashStore, same)
     if out[0] != "return":
         return True, f"integer-like strings for depth/width refused: {out[1]}"
-    return False, f"{len(variants)} mismatching configurations refused, the equal one accepted"
+    # the configuration is what hashstore.yaml says now, not what an earlier store at the same path
+    # said: remove the store, create another one at the same path with another configuration
+    shutil.rmtree(base["store_path"])
+    other = dict(base, store_algorithm="MD5" if base["store_algorithm"] != "MD5" else "SHA-256",
+                 store_depth=base["store_depth"] + 1)
+    out = outcome(FileHashStore, other)
+    if out[0] != "return":
+        return True, f"a new store at a re-used path is refused: {out[1]}: {out[2]}"
+    s2 = out[1]
+    om = s2.store_object("p2", tmp_input(root, b"y", "y.bin"))
+    want = hashlib.new(layout.HASHLIB[other["store_algorithm"]], b"y").hexdigest()
+    if om.cid != want:
+        return True, ("a store created at a re-used path addresses objects with the algorithm of the "
+                      "store that was at that path before, not with its own configuration")
+    if outcome(FileHashStore, other)[0] != "return":
+        return True, "a store created at a re-used path cannot be re-opened with its own configuration"
+    if outcome(FileHashStore, base)[0] == "return":
+        return True, "a store created at a re-used path re-opens with the earlier store's configuration"
+    return False, f"{len(variants)} mismatching configurations refused, the equal one accepted, path re-use ok"
 
 
 def o_client_matrix(p, cfg):
@@ -1039,7 +1135,8 @@ def o_client_matrix(p, cfg):
     sha = hashlib.sha256(content).hexdigest()
     cases = []
     for algo in (None, "sha3_256", "md2"):
-        for cs in (None, (sha, "SHA-256"), ("00", "sha256")):
+        for cs in (None, (sha, "SHA-256"), ("00", "sha256"), (None, "SHA-256"), (sha, None),
+                   (None, "not-an-algorithm")):
             for size in (None, str(len(content)), "7", "", "abc"):
                 cases.append(("storeobject", {"algo": algo, "cs": cs, "size": size}))
     for fmt in (None, "fmt-o", "", "nope"):
@@ -1062,8 +1159,12 @@ def o_client_matrix(p, cfg):
                     argv.append("-algo=" + o["algo"])
                     kw["additional_algorithm"] = o["algo"]
                 if o["cs"] is not None:
-                    argv += ["-checksum=" + o["cs"][0], "-checksum_algo=" + o["cs"][1]]
-                    kw.update(checksum=o["cs"][0], checksum_algorithm=o["cs"][1])
+                    if o["cs"][0] is not None:
+                        argv.append("-checksum=" + o["cs"][0])
+                        kw["checksum"] = o["cs"][0]
+                    if o["cs"][1] is not None:
+                        argv.append("-checksum_algo=" + o["cs"][1])
+                        kw["checksum_algorithm"] = o["cs"][1]
                 if o["size"] is not None:
                     argv.append("-obj_size=" + o["size"])
                     try:
@@ -1094,7 +1195,7 @@ def o_client_matrix(p, cfg):
             else:
                 argv.append("-pid=seeded")
                 api = outcome(store_b.delete_object, "seeded")
-            r = subprocess.run(argv, capture_output=True, text=True, timeout=60)
+            r = subprocess.run(argv, capture_output=True, text=True, timeout=60, env=_child_env())
             cli_ok = r.returncode == 0
             api_ok = api[0] == "return"
             what = " ".join(a for a in argv[3:] if not a.startswith("-path"))
@@ -1341,6 +1442,84 @@ def o_digest_history(p, cfg):
     return False, "digests true for every algorithm and spelling across a delete / re-store"
 
 
+def o_identifier_pool(p, cfg):
+    """C18 / C15: identifiers are opaque.  For a pool of identifiers that differ only in ways a
+    normalising implementation would erase (Unicode composition, case, inner / outer whitespace
+    variants that are accepted, prefixes, path-like text) the hash-derived addresses must be the
+    digest of exactly the UTF-8 bytes, and two distinct identifiers never share a pid reference or a
+    metadata document."""
+    store, props, root = new_store(cfg)
+    lay = layout.Layout(props)
+    alg = layout.HASHLIB[props["store_algorithm"]]
+    pool = ["caf\u00e9.1", "cafe\u0301.1", "\u2126-id", "\u03a9-id", "\uac00", "\u1100\u1161",
+            "Doi:10.1/AB", "doi:10.1/ab", "a", "ab", "a/b", "a/../b", "x;rm$-rf&&", "\ufb01le", "file",
+            "\u00c5", "A\u030a", "\u212b"]
+    for s_ in pool:
+        want = hashlib.new(alg, s_.encode("utf-8")).hexdigest()
+        got = store._computehash(s_)
+        if got != want:
+            return True, (f"_computehash({s_!r}) is {got[:12]}.., the {alg} digest of its UTF-8 bytes is "
+                          f"{want[:12]}..: the address of an identifier is not derived from the identifier itself")
+    docs = {}
+    for i, s_ in enumerate(pool):
+        out = outcome(store.store_metadata, s_, tmp_input(root, f"<doc {i}/>".encode(), f"ip{i}.xml"), "fmt")
+        if out[0] != "return":
+            return True, f"store_metadata({s_!r}) raised {out[1]}"
+        docs[s_] = f"<doc {i}/>".encode()
+    for s_, want in docs.items():
+        with store.retrieve_metadata(s_, "fmt") as fh:
+            got = fh.read()
+        if got != want:
+            return True, (f"retrieve_metadata({s_!r}) returns the document stored for another identifier "
+                          f"({got!r}): two distinct identifiers alias")
+    for i, s_ in enumerate(pool):
+        out = outcome(store.store_object, s_, tmp_input(root, f"content {i}".encode(), f"io{i}.bin"))
+        if out[0] != "return":
+            return True, f"store_object({s_!r}) of fresh content raised {out[1]}: {out[2]}"
+    v = lay.view()
+    for i, s_ in enumerate(pool):
+        c = hashlib.new(alg, f"content {i}".encode()).hexdigest()
+        if s_ not in v["P"] or v["P"][s_] != c:
+            return True, f"pid {s_!r} does not name its own object after the stores"
+    return False, f"{len(pool)} look-alike identifiers keep separate addresses"
+
+
+def o_refs_helper_pool(p, cfg):
+    """C05 / C10 / C15 at the helper level: _update_refs_file on every small reference list (the
+    empty list included: delete_object leaves it for a moment, a crash leaves it for good) must add
+    / remove exactly the one identifier and keep one identifier per newline-terminated line."""
+    store, props, root = new_store(cfg)
+    pool = ["ab", "a", "doi:10.1/ab", "b"]
+    n = 0
+    for lines in ([], ["ab"], ["a", "b"], ["doi:10.1/ab", "ab"], ["b", "a", "ab"]):
+        for op in ("add", "remove"):
+            for ref in pool:
+                path = Path(root) / "refs" / "tmp" / f"pool-{n}"
+                n += 1
+                os.makedirs(path.parent, exist_ok=True)
+                with open(path, "w", encoding="utf8") as fh:
+                    fh.write("".join(x + "\n" for x in lines))
+                out = outcome(store._update_refs_file, path, ref, op)
+                want = list(lines)
+                if op == "add" and ref not in want:
+                    want.append(ref)
+                if op == "remove":
+                    want = [x for x in want if x != ref]
+                if out[0] != "return":
+                    return True, (f"_update_refs_file({lines!r}, {ref!r}, {op!r}) raised {out[1]}: {out[2]}; "
+                                  f"the reference list must become {want!r}")
+                with open(path, "r", encoding="utf8") as fh:
+                    raw = fh.read()
+                got = raw.split("\n")[:-1] if raw else []
+                if sorted(got) != sorted(want) or (raw and not raw.endswith("\n")):
+                    return True, (f"_update_refs_file({lines!r}, {ref!r}, {op!r}) leaves {raw!r}; "
+                                  f"the reference list must become {want!r}")
+                os.remove(path)
+    return False, f"{n} helper calls leave exactly the expected reference list"
+
+
+ORACLES["refs_helper_pool"] = o_refs_helper_pool
+ORACLES["identifier_pool"] = o_identifier_pool
 ORACLES["race_store_meta_delete_all"] = o_race_store_meta_delete_all
 ORACLES["digest_history"] = o_digest_history
 ORACLES["observe_steps"] = o_observe_steps
